@@ -349,6 +349,23 @@ func corpus(pts []mc.PVal) [][]byte {
 			mc.Extensions(u, tail, 2, add)
 		}
 	}
+	// limb-structured coordinates: p - 2^k, 2^256-1-2^k, 2^k, 2^k - 1, p + 2^k for every k, as compressed
+	// encodings (both parities) and as x of an uncompressed encoding with the reference y when one exists
+	for k := uint(0); k < 256; k++ {
+		p2 := new(big.Int).Lsh(one, k)
+		for _, v := range []*big.Int{new(big.Int).Sub(ref.P, p2), new(big.Int).Sub(max, p2), p2, new(big.Int).Sub(p2, one), new(big.Int).Add(ref.P, p2)} {
+			if v.Sign() < 0 || v.BitLen() > 256 {
+				continue
+			}
+			xb := ref.B32(v)
+			add(cat([]byte{2}, xb))
+			add(cat([]byte{3}, xb))
+			if pt, ok := ref.LiftX(v, 0); ok {
+				add(pt.Uncompressed())
+				// the same point with y and x exchanged roles: y-coordinate = limb-structured value if it happens to fit is not constructible; skip
+			}
+		}
+	}
 	// every length 0..66 with structured fill
 	for L := 0; L <= 66; L++ {
 		for _, pre := range []byte{0, 2, 3, 4, 6, 7} {
